@@ -106,10 +106,15 @@ func (s c01State) describe(pool []string) string {
 // c01Eval evaluates the package made of the given file sources (plus the
 // shared definitions file) and returns the projection per top-level field.
 func c01Eval(srcs []string) (map[string]string, error) {
+	return pkgEval(append([]string{"package p\n#D: {x: int}\n"}, srcs...), []string{"a", "b", "c"})
+}
+
+// pkgEval evaluates the package made of srcs plus the probe file and returns
+// the projection of each of the given top-level fields.
+func pkgEval(srcs []string, labels []string) (map[string]string, error) {
 	ctx := cuecontext.New()
 	bi := build.NewContext().NewInstance("", nil)
-	all := append([]string{"package p\n#D: {x: int}\n"}, srcs...)
-	all = append(all, c01ProbeFile())
+	all := append(append([]string{}, srcs...), probeFile(labels))
 	for i, src := range all {
 		f, err := parser.ParseFile(fmt.Sprintf("f%d.cue", i), src)
 		if err != nil {
@@ -122,7 +127,18 @@ func c01Eval(srcs []string) (map[string]string, error) {
 	v := ctx.BuildInstance(bi)
 	cc := newCanonCtx(ctx)
 	out := map[string]string{}
-	for _, l := range []string{"a", "b", "c"} {
+	if err := v.Err(); err != nil && len(labels) > 3 {
+		any := false
+		for _, l := range labels {
+			if v.LookupPath(cue.ParsePath(l)).Exists() {
+				any = true
+			}
+		}
+		if !any {
+			return nil, fmt.Errorf("build: %v", err)
+		}
+	}
+	for _, l := range labels {
 		var b strings.Builder
 		b.WriteString(cc.canon(v.LookupPath(cue.ParsePath(l)), 3))
 		// acceptance of the probes, evaluated in the language itself (hidden
@@ -148,11 +164,13 @@ func c01Eval(srcs []string) (map[string]string, error) {
 
 // c01ProbeFile is the extra file unifying every field (and its x / y
 // sub-fields) with every probe.
-func c01ProbeFile() string {
+func c01ProbeFile() string { return probeFile([]string{"a", "b", "c"}) }
+
+func probeFile(labels []string) string {
 	var b strings.Builder
 	b.WriteString("package p\n")
 	names := append(append([]string{}, canonScalarProbes...), canonStructProbes...)
-	for _, l := range []string{"a", "b", "c"} {
+	for _, l := range labels {
 		for _, sub := range []string{"", "x", "y"} {
 			path := l
 			if sub != "" {
